@@ -646,6 +646,11 @@ class BitString(base.SimpleAsn1Type):
         value: :class:`str` (Py2) or :class:`bytes` (Py3)
             Text string like '\\\\x01\\\\xff' (Py2) or b'\\\\x01\\\\xff' (Py3)
         """
+        if padding > len(value) * 8:
+            raise error.PyAsn1Error(
+                '%s.fromOctetString() error: %d unused bits in %d octets' % (
+                    cls.__name__, padding, len(value)))
+
         value = SizedInteger(integer.from_bytes(value) >> padding).setBitLength(len(value) * 8 - padding)
 
         if prepend is not None:
